@@ -85,6 +85,59 @@ def gen_config(rng):
     return j, ("&".join(c) if c else "-")
 
 
+KEYED = {"Level2": "target_max_pq", "Level8": "target_display_index", "Level10": "target_display_index"}
+
+
+def clamp_l1(b, cm40):
+    """GenerateConfig::fixup_l1 (CLI, non-XML sources): ExtMetadataBlockLevel1::clamp_values_int"""
+    mn = min(max(b["min_pq"], 0), 12)
+    mx = min(max(b["max_pq"], 2081), 4095)
+    lo = 1229 if cm40 else 819
+    av = min(max(b["avg_pq"], lo), mx - 1) if lo <= mx - 1 else None
+    return {"min_pq": mn, "max_pq": mx, "avg_pq": av}
+
+
+def winners(blocks):
+    """per (level, key): the last block of a source list"""
+    w = {}
+    for b in blocks:
+        name = list(b)[0]
+        key = b[name].get(KEYED[name]) if name in KEYED else None
+        w[(name, key)] = b[name]
+    return w
+
+
+def frame_blocks(jj):
+    out = {}
+    for ck in ("cmv29_metadata", "cmv40_metadata"):
+        for b in (jj["vdr_dm_data"].get(ck) or {}).get("ext_metadata_blocks", []):
+            name = list(b)[0]
+            key = b[name].get(KEYED[name]) if name in KEYED else None
+            out.setdefault((name, key), []).append(b[name])
+    return out
+
+
+def precedence_expect(cfg, shot, i):
+    """(source, {(level,key): block}) the property requires in frame `i` of `shot`: blocks of the frame edit at that
+    offset win over the shot's, which win over the defaults. Frames with two edits at the same offset are
+    skipped (the property does not say which wins)."""
+    exp = {}
+    for b, v in winners(cfg.get("default_metadata_blocks") or []).items():
+        # docs/generator.md: the default list "does not accept L5, L6 and L254 metadata" (L5/L6 come from
+        # the config's level5/level6 keys)
+        if b[0] not in ("Level5", "Level6", "Level254"):
+            exp[b] = ("default", v)
+    for b, v in winners(shot.get("metadata_blocks") or []).items():
+        exp[b] = ("shot", v)
+    eds = [e for e in shot.get("frame_edits") or [] if e["edit_offset"] == i]
+    if len(eds) > 1:
+        return None
+    for e in eds:
+        for b, v in winners(e["metadata_blocks"]).items():
+            exp[b] = ("edit", v)
+    return exp
+
+
 def run_case(args):
     i, work, cfg, popt, lpopt = args
     d = os.path.join(work, "c%d" % i)
@@ -167,6 +220,33 @@ def run(ctx):
                                          "expected": "profile %s, flag %d" % (want_prof, 1 if (lp or f in starts) else 0),
                                          "shape": "profile-or-scene-cut"})
                         break
+                    # precedence, decided directly on the real output (independent of the Lean model)
+                    if "shots" in cfg:
+                        k2 = 0
+                        for sh in cfg["shots"]:
+                            if f < k2 + sh["duration"]:
+                                break
+                            k2 += sh["duration"]
+                        exp = precedence_expect(cfg, sh, f - k2)
+                        have = frame_blocks(jj)
+                        l1cm40 = (cfg.get("l1_avg_pq_cm_version") or cfg.get("cm_version", "V40")) == "V40"
+                        for (name, key), (src, want) in (exp or {}).items():
+                            # a CM v4.0 level in a CM v2.9-only config has no container to live in (the tool ignores it)
+                            if cfg.get("cm_version", "V40") == "V29" and name not in ("Level1", "Level2", "Level4", "Level5", "Level6", "Level255"):
+                                continue
+                            if name == "Level1":
+                                want = clamp_l1(want, l1cm40)
+                                if want["avg_pq"] is None:
+                                    continue
+                            got = have.get((name, key), [])
+                            ctx.count("precedence-checked=%s" % src)
+                            # a short L8/L9/L10 block serialises only the fields its length carries
+                            if not any(all(want.get(kk) == vv for kk, vv in g.items()) for g in got):
+                                ctx.oracle_fail({"op": "generate", "input": l[:5000], "config": cfg, "frame": f,
+                                                 "observed": "%s key %s in frame: %s" % (name, key, json.dumps(got)[:300]),
+                                                 "expected": "the %s block %s" % (src, json.dumps(want)[:300]),
+                                                 "shape": "precedence"})
+                                break
                     want_cm40 = cfg.get("cm_version", "V40") == "V40"
                     if ("cmv40_metadata" in jj["vdr_dm_data"]) != want_cm40:
                         ctx.oracle_fail({"op": "generate", "input": l[:5000], "config": cfg, "frame": f,
